@@ -723,6 +723,23 @@ class Emitter:
                 return str(s['value'])
             if s.get('kind') == 'ConstantExpr' and 'value' in s:
                 return str(s['value'])
+        # no initialiser: the value is the previous enumerator's plus one (0 for the first), [dcl.enum]
+        par = self.parent.get(ec.get('id'))
+        if par is not None and par.get('kind') == 'EnumDecl':
+            cur = -1
+            for c in par.get('inner', []):
+                if c.get('kind') != 'EnumConstantDecl':
+                    continue
+                explicit = None
+                for cc in c.get('inner', []):
+                    ss = self.strip(cc)
+                    if 'value' in ss:
+                        explicit = int(ss['value'])
+                    elif ss.get('kind') == 'ConstantExpr' and 'value' in ss:
+                        explicit = int(ss['value'])
+                cur = explicit if explicit is not None else cur + 1
+                if c.get('id') == ec.get('id'):
+                    return str(cur)
         raise Abort('enum constant without value: ' + str(ec.get('name')))
 
     def cast(self, n):
